@@ -92,6 +92,20 @@ pub fn build_with_repr(a: &mut Allocator, t: &Sx, seed: u64, counts: &mut [u64; 
     })
 }
 
+/// `seed` 0: every atom through new_atom; otherwise the representation plan of `seed`
+pub fn to_alloc_repr(a: &mut Allocator, t: &Sx, seed: u64, out: &mut Outcome) -> Result<NodePtr, EvalErr> {
+    if seed == 0 {
+        return t.to_alloc(a);
+    }
+    let mut counts = [0u64; 4];
+    let r = build_with_repr(a, t, seed, &mut counts);
+    out.count("repr.default", counts[0]);
+    out.count("repr.heap_concat", counts[1]);
+    out.count("repr.substr_view", counts[2]);
+    out.count("repr.via_number", counts[3]);
+    r
+}
+
 // ---------------------------------------------------------------------------
 // C03
 
